@@ -773,7 +773,14 @@ func genHistory(t *tape.Tape) []world.Op {
 		switch cls := t.Pick(wReset, wObs+1, 6, 2); {
 		case cls == 0:
 			o = world.Op{K: world.KReset, VB: world.GenViewBox(t), Pal: world.GenPalette(t)}
-			if t.Chance(1, 8) {
+			if t.Chance(1, 10) {
+				// valid but extreme: finite bounds whose extent overflows float32,
+				// tiny and huge magnitudes (all exactly representable in the
+				// 4-byte form, so that the decode oracle stays bit-exact)
+				big, tiny := float32(math.Ldexp(1, 127)), float32(math.Ldexp(1, -100))
+				o.VB = []ivg.ViewBox{{MinX: -big, MinY: -big, MaxX: big, MaxY: big}, {MinX: -big, MinY: 0, MaxX: big, MaxY: 48}, {MinX: 0, MinY: 0, MaxX: big, MaxY: 1},
+					{MinX: -tiny, MinY: -tiny, MaxX: tiny, MaxY: tiny}, {MinX: float32(math.Ldexp(1, 100)), MinY: 0, MaxX: float32(math.Ldexp(1, 101)), MaxY: float32(math.Ldexp(1, 30))}}[t.Intn(5)]
+			} else if t.Chance(1, 8) {
 				// a viewBox the format calls invalid is not a protocol violation:
 				// the Encoder must not start reporting errors because of it
 				nan, inf := float32(math.NaN()), float32(math.Inf(1))
